@@ -457,24 +457,6 @@ Theorem pb_method_unguarded_refuted :
 Proof. exists (mkMsg 1 x01 [xff] status_zero [] x6a []). split; reflexivity. Qed.
 
 (* ---- websocket protobuf sub-protocol ---- *)
-Lemma append_each_b_loop reg (ids : list byte) : forall q p,
-  pipe_append_loop reg q ids = (p, None) ->
-  fold_left (fun p c => fst (pipe_append reg p [c])) ids q = p.
-Proof.
-  induction ids as [|id r IH]; intros q p H; cbn [pipe_append_loop] in H.
-  - inversion H. reflexivity.
-  - destruct (reg_get reg id) as [f|] eqn:E; [|discriminate].
-    cbn [fold_left]. rewrite append_one, E. apply IH. exact H.
-Qed.
-
-Lemma append_each_b_ok reg ids p :
-  pipe_append reg [] ids = (p, None) -> append_each_b reg ids = p.
-Proof.
-  unfold pipe_append, append_each_b. destruct (pipe_append_loop reg [] ids) as [q [e|]] eqn:E; [discriminate|].
-  destruct (Nat.ltb 255 (length q)); [discriminate|]. intros H; inversion H; subst q.
-  apply append_each_b_loop. exact E.
-Qed.
-
 Section WsPbProofs.
   Variable skip_group : bytes -> res bytes.
 
@@ -495,7 +477,7 @@ Section WsPbProofs.
     unfold wspb_ok in Hok. apply andb_true_iff in Hok as [H Hcause]. apply andb_true_iff in H as [H Hmsg].
     apply andb_true_iff in H as [H Hcode]. apply andb_true_iff in H as [Hseq Hmeta].
     unfold wspb_unpack. rewrite wspb_decode_payload by auto. cbn [rbind pr_xfer pr_body pr_meta pr_seq pr_mtype pr_method pr_codec].
-    rewrite (append_each_b_ok reg ids p Hp).
+    rewrite (append_each_err_ok reg ids p Hp). cbn [of_option rbind].
     rewrite (registered_pipe_roundtrip reg ids p Hinv Hp _ _ Hpp). cbn [of_option rbind].
     rewrite args_roundtrip by exact Hmeta. cbn [rbind].
     rewrite !wrap8_byte_z, Hids.
@@ -509,6 +491,7 @@ Section WsPbProofs.
     wspb_unpack skip_group reg lim b = Ok (m, ids, size) -> size = sub_size lim b.
   Proof.
     unfold wspb_unpack. destruct (pb_decode _ _ _ _); cbn [rbind]; try discriminate.
+    destruct (append_each_err _ _ _); cbn [of_option rbind]; [|discriminate].
     destruct (pipe_unpack _ _); cbn [of_option rbind]; [|discriminate].
     destruct (args_parse _); cbn [rbind]; try discriminate.
     intros H. apply Ok_inj in H. congruence.
